@@ -16,7 +16,7 @@ Viol(o) ==
        \cup (IF o.o.r.r # "ok" THEN {"parse-" \o o.o.r.r}
              ELSE V(o.o.r.v.kind = o.c.v.kind, "kind-changed") \cup V(J2N(o.o.r.v) = J2N(o.c.v), "roundtrip-differs"))
 Drift(o) ==
-  IF o.o.build # "ok" \/ o.o.format # "ok" \/ "deep" \in DOMAIN o.c THEN {}      \* (deep values: the model round trip is checked by MC_Deep itself)
+  IF o.o.build # "ok" \/ o.o.format # "ok" \/ "deep" \in DOMAIN o.c \/ "exotic" \in DOMAIN o.c THEN {}      \* (deep values: the model round trip is checked by MC_Deep itself)
   ELSE LET m == Parse(Chars(o.o.s)) IN
        IF m.r # o.o.r.r THEN {"model-verdict"}
        ELSE IF m.r = "ok" /\ m.v # J2N(o.o.r.v) THEN {"model-value"} ELSE {}
